@@ -1,1 +1,1120 @@
-//! shared ConfigState command-history generator (being written by an agent)
+//! cfggen — seeded generator of configuration command histories (`Request` sequences) for
+//! `sozu_command_lib::state::ConfigState` and anything that consumes the same verbs (workers, the
+//! main process), plus the structural state comparison shared by C05/C06/C07.
+//!
+//! The generator is free of harness state: `gen_history(&mut Prng, len, &GenOpts) -> Vec<Request>`.
+//! It covers every mutating verb `ConfigState::dispatch` accepts, with valid and deliberately invalid
+//! arguments, duplicates, removals of missing things, partially invalid multi-field commands, over
+//! small alphabets (cluster ids, IPv4/IPv6 addresses, hostnames, backend ids) so collisions are common.
+//!
+//! Certificates come from the PEM fixtures in `/repo/lib/assets`. To keep plans small the generator can
+//! emit *symbolic* PEM strings (`@cert:N`, `@key:N`, `@chain`, `@dertrunc:N`, `@pemtrunc:N`) that
+//! `materialize` expands to the real text; `gen_history` returns materialised requests.
+#![allow(dead_code)]
+
+use std::collections::{BTreeMap, BTreeSet};
+use std::net::SocketAddr;
+
+use sozu_command_lib::certificate::Fingerprint;
+use sozu_command_lib::proto::command::{
+    request::RequestType, ActivateListener, AddBackend, AddCertificate, AlpnProtocols, CertificateAndKey, Cluster, CustomHttpAnswers,
+    DeactivateListener, Header, HealthCheckConfig, HstsConfig, HttpListenerConfig, HttpsListenerConfig, IpAddress, LoadBalancingParams, PathRule,
+    RemoveBackend, RemoveCertificate, RemoveListener, ReplaceCertificate, Request, RequestHttpFrontend, RequestTcpFrontend, RequestUdpFrontend,
+    SetHealthCheck, SocketAddress, Status, TcpListenerConfig, UdpClusterConfig, UdpHealthConfig, UdpListenerConfig, UpdateHttpListenerConfig,
+    UpdateHttpsListenerConfig, UpdateTcpListenerConfig, UpdateUdpListenerConfig,
+};
+use sozu_command_lib::response::{Backend, HttpFrontend, TcpFrontend, UdpFrontend};
+use sozu_command_lib::state::ConfigState;
+
+use crate::prng::Prng;
+
+// ------------------------------------------------------------------------------------------ corpus
+
+/// (certificate PEM, private key PEM) pairs that exist in the repository.
+pub const CORPUS: &[(&str, &str)] = &[
+    (include_str!("/repo/lib/assets/tests/ecdsa-localhost.pem"), include_str!("/repo/lib/assets/tests/ecdsa-localhost.key")),
+    (include_str!("/repo/lib/assets/cn-ne-san-cert.pem"), include_str!("/repo/lib/assets/cn-ne-san-key.pem")),
+    (include_str!("/repo/lib/assets/multi-sni-cert.pem"), include_str!("/repo/lib/assets/multi-sni-key.pem")),
+    (include_str!("/repo/lib/assets/tests/localhost.crt"), include_str!("/repo/lib/assets/tests/localhost.key")),
+    (include_str!("/repo/lib/assets/certificate.pem"), include_str!("/repo/lib/assets/key.pem")),
+    (include_str!("/repo/lib/assets/local-certificate.pem"), include_str!("/repo/lib/assets/local-key.pem")),
+];
+pub const CHAIN: &str = include_str!("/repo/lib/assets/certificate_chain.pem");
+
+/// Expand one symbolic PEM string. Anything not starting with `@` is returned as is.
+pub fn expand_pem(s: &str) -> String {
+    let idx = |rest: &str| rest.parse::<usize>().unwrap_or(0) % CORPUS.len();
+    if let Some(r) = s.strip_prefix("@cert:") { return CORPUS[idx(r)].0.to_string(); }
+    if let Some(r) = s.strip_prefix("@key:") { return CORPUS[idx(r)].1.to_string(); }
+    if s == "@chain" { return CHAIN.to_string(); }
+    if let Some(r) = s.strip_prefix("@pemtrunc:") {
+        // BEGIN line and some base64, no END line: not a PEM object
+        let c = CORPUS[idx(r)].0;
+        return c[..c.len() / 2].to_string();
+    }
+    if let Some(r) = s.strip_prefix("@dertrunc:") {
+        // well-formed PEM framing around a truncated DER body: PEM parses, X.509 does not
+        let c = CORPUS[idx(r)].0;
+        let lines: Vec<&str> = c.lines().collect();
+        let keep = 1 + (lines.len().saturating_sub(2)) / 2;
+        let mut out = String::new();
+        for l in &lines[..keep.min(lines.len())] { out.push_str(l); out.push('\n'); }
+        out.push_str("-----END CERTIFICATE-----\n");
+        return out;
+    }
+    s.to_string()
+}
+
+fn expand_cak(c: &mut CertificateAndKey) {
+    if c.certificate.starts_with('@') { c.certificate = expand_pem(&c.certificate); }
+    if c.key.starts_with('@') { c.key = expand_pem(&c.key); }
+    for x in c.certificate_chain.iter_mut() { if x.starts_with('@') { *x = expand_pem(x); } }
+}
+
+/// Replace symbolic PEM strings by the real text (idempotent).
+pub fn materialize(r: &mut Request) {
+    match &mut r.request_type {
+        Some(RequestType::AddCertificate(a)) => expand_cak(&mut a.certificate),
+        Some(RequestType::ReplaceCertificate(a)) => expand_cak(&mut a.new_certificate),
+        Some(RequestType::AddHttpsListener(l)) => {
+            if let Some(c) = l.certificate.as_mut() { if c.starts_with('@') { *c = expand_pem(c); } }
+            if let Some(c) = l.key.as_mut() { if c.starts_with('@') { *c = expand_pem(c); } }
+            for x in l.certificate_chain.iter_mut() { if x.starts_with('@') { *x = expand_pem(x); } }
+        }
+        _ => {}
+    }
+}
+
+/// SHA-256 fingerprint (hex) of corpus certificate `i`, as sozu computes it (input construction only).
+pub fn corpus_fingerprint(i: usize) -> String {
+    sozu_command_lib::certificate::calculate_fingerprint(CORPUS[i % CORPUS.len()].0.as_bytes()).map(hex_encode).unwrap_or_default()
+}
+pub fn hex_encode(b: Vec<u8>) -> String {
+    let mut s = String::with_capacity(b.len() * 2);
+    for x in b { s.push_str(&format!("{x:02x}")); }
+    s
+}
+
+// ------------------------------------------------------------------------------------------- verbs
+
+#[derive(Clone, Copy, Debug, PartialEq, Eq, PartialOrd, Ord, serde::Serialize, serde::Deserialize)]
+pub enum Verb {
+    AddCluster, RemoveCluster, SetHealthCheck, RemoveHealthCheck,
+    AddHttpListener, AddHttpsListener, AddTcpListener, AddUdpListener,
+    RemoveListener, ActivateListener, DeactivateListener,
+    UpdateHttpListener, UpdateHttpsListener, UpdateTcpListener, UpdateUdpListener,
+    AddHttpFrontend, RemoveHttpFrontend, AddHttpsFrontend, RemoveHttpsFrontend,
+    AddTcpFrontend, RemoveTcpFrontend, AddUdpFrontend, RemoveUdpFrontend,
+    AddBackend, RemoveBackend,
+    AddCertificate, ReplaceCertificate, RemoveCertificate,
+    /// requests that are not configuration: Status, an empty request, SaveState (undispatchable)
+    NonConfig,
+}
+pub const ALL_VERBS: &[Verb] = &[
+    Verb::AddCluster, Verb::RemoveCluster, Verb::SetHealthCheck, Verb::RemoveHealthCheck,
+    Verb::AddHttpListener, Verb::AddHttpsListener, Verb::AddTcpListener, Verb::AddUdpListener,
+    Verb::RemoveListener, Verb::ActivateListener, Verb::DeactivateListener,
+    Verb::UpdateHttpListener, Verb::UpdateHttpsListener, Verb::UpdateTcpListener, Verb::UpdateUdpListener,
+    Verb::AddHttpFrontend, Verb::RemoveHttpFrontend, Verb::AddHttpsFrontend, Verb::RemoveHttpsFrontend,
+    Verb::AddTcpFrontend, Verb::RemoveTcpFrontend, Verb::AddUdpFrontend, Verb::RemoveUdpFrontend,
+    Verb::AddBackend, Verb::RemoveBackend,
+    Verb::AddCertificate, Verb::ReplaceCertificate, Verb::RemoveCertificate,
+    Verb::NonConfig,
+];
+
+/// Short verb name of a request (plan-side classification; `-` for an empty request).
+pub fn verb_name(r: &Request) -> &'static str {
+    match &r.request_type {
+        None => "Empty",
+        Some(t) => match t {
+            RequestType::AddCluster(_) => "AddCluster", RequestType::RemoveCluster(_) => "RemoveCluster",
+            RequestType::SetHealthCheck(_) => "SetHealthCheck", RequestType::RemoveHealthCheck(_) => "RemoveHealthCheck",
+            RequestType::AddHttpListener(_) => "AddHttpListener", RequestType::AddHttpsListener(_) => "AddHttpsListener",
+            RequestType::AddTcpListener(_) => "AddTcpListener", RequestType::AddUdpListener(_) => "AddUdpListener",
+            RequestType::RemoveListener(_) => "RemoveListener", RequestType::ActivateListener(_) => "ActivateListener",
+            RequestType::DeactivateListener(_) => "DeactivateListener",
+            RequestType::UpdateHttpListener(_) => "UpdateHttpListener", RequestType::UpdateHttpsListener(_) => "UpdateHttpsListener",
+            RequestType::UpdateTcpListener(_) => "UpdateTcpListener", RequestType::UpdateUdpListener(_) => "UpdateUdpListener",
+            RequestType::AddHttpFrontend(_) => "AddHttpFrontend", RequestType::RemoveHttpFrontend(_) => "RemoveHttpFrontend",
+            RequestType::AddHttpsFrontend(_) => "AddHttpsFrontend", RequestType::RemoveHttpsFrontend(_) => "RemoveHttpsFrontend",
+            RequestType::AddTcpFrontend(_) => "AddTcpFrontend", RequestType::RemoveTcpFrontend(_) => "RemoveTcpFrontend",
+            RequestType::AddUdpFrontend(_) => "AddUdpFrontend", RequestType::RemoveUdpFrontend(_) => "RemoveUdpFrontend",
+            RequestType::AddBackend(_) => "AddBackend", RequestType::RemoveBackend(_) => "RemoveBackend",
+            RequestType::AddCertificate(_) => "AddCertificate", RequestType::ReplaceCertificate(_) => "ReplaceCertificate",
+            RequestType::RemoveCertificate(_) => "RemoveCertificate",
+            RequestType::Status(_) => "Status", RequestType::SaveState(_) => "SaveState",
+            _ => "Other",
+        },
+    }
+}
+
+// ----------------------------------------------------------------------------------------- options
+
+#[derive(Clone, Debug)]
+pub struct GenOpts {
+    /// listener / frontend address alphabet
+    pub addrs: Vec<SocketAddr>,
+    /// backend address alphabet
+    pub backend_addrs: Vec<SocketAddr>,
+    pub clusters: Vec<String>,
+    pub hosts: Vec<String>,
+    pub backend_ids: Vec<String>,
+    /// number of corpus certificates in use (1..=CORPUS.len())
+    pub n_certs: usize,
+    /// relative weight per verb (0 = never)
+    pub weights: BTreeMap<Verb, u32>,
+    /// per mille: an argument is deliberately invalid as a whole (unknown enum value, address without ip,
+    /// unparsable PEM, bad hex, invalid health check)
+    pub invalid_pm: u32,
+    /// per mille: a multi-field command (listener patch, certificate replacement) carries exactly one bad
+    /// field among good ones
+    pub partial_pm: u32,
+    /// per mille: removals / patches / replacements aim at something emitted earlier in this history
+    pub reuse_pm: u32,
+    /// emit symbolic PEM strings (see `materialize`) instead of the real text
+    pub symbolic_certs: bool,
+    /// per mille: an optional field is present
+    pub opt_pm: u32,
+    /// per mille: a free-text field (answer template) is large (30-70 kB, rarely > 200 kB)
+    pub big_text_pm: u32,
+}
+
+pub const ADDR_ALPHABET: &[&str] = &["127.0.0.1:8080", "127.0.0.1:8443", "[::1]:8080", "10.0.0.1:80", "[2001:db8::1]:443", "0.0.0.0:80", "127.0.0.1:8081"];
+pub const BACKEND_ADDR_ALPHABET: &[&str] = &["10.1.0.1:8000", "10.1.0.2:8000", "[fd00::1]:8000", "10.1.0.1:8001"];
+pub const HOST_ALPHABET: &[&str] = &["a.test", "b.test", "*.a.test", "A.test", "xn--bcher-kva.test"];
+
+impl GenOpts {
+    /// every verb, moderate fault rates, the whole alphabet
+    pub fn full() -> GenOpts {
+        GenOpts {
+            addrs: ADDR_ALPHABET.iter().take(4).map(|s| s.parse().unwrap()).collect(),
+            backend_addrs: BACKEND_ADDR_ALPHABET.iter().map(|s| s.parse().unwrap()).collect(),
+            clusters: vec!["c0".into(), "c1".into(), "c2".into()],
+            hosts: HOST_ALPHABET.iter().take(3).map(|s| s.to_string()).collect(),
+            backend_ids: vec!["b0".into(), "b1".into()],
+            n_certs: 4,
+            weights: ALL_VERBS.iter().map(|v| (*v, default_weight(*v))).collect(),
+            invalid_pm: 80,
+            partial_pm: 150,
+            reuse_pm: 600,
+            symbolic_certs: false,
+            opt_pm: 250,
+            big_text_pm: 0,
+        }
+    }
+    /// swarm: random alphabet sizes, random subset of verbs emphasised / switched off, random fault rates
+    pub fn swarm(rng: &mut Prng) -> GenOpts {
+        let mut o = GenOpts::full();
+        let na = 1 + rng.below(4) as usize;
+        let mut idx: Vec<usize> = (0..ADDR_ALPHABET.len()).collect();
+        rng.shuffle(&mut idx);
+        o.addrs = idx.iter().take(na).map(|i| ADDR_ALPHABET[*i].parse().unwrap()).collect();
+        let nb = 1 + rng.below(BACKEND_ADDR_ALPHABET.len() as u64) as usize;
+        o.backend_addrs = BACKEND_ADDR_ALPHABET.iter().take(nb).map(|s| s.parse().unwrap()).collect();
+        let nc = 1 + rng.below(3) as usize;
+        o.clusters = (0..nc).map(|i| format!("c{i}")).collect();
+        if rng.chance(1, 10) { o.clusters.push(String::new()); }
+        let nh = 1 + rng.below(3) as usize;
+        let mut hidx: Vec<usize> = (0..HOST_ALPHABET.len()).collect();
+        rng.shuffle(&mut hidx);
+        o.hosts = hidx.iter().take(nh).map(|i| HOST_ALPHABET[*i].to_string()).collect();
+        o.backend_ids = (0..1 + rng.below(3)).map(|i| format!("b{i}")).collect();
+        o.n_certs = 1 + rng.below(CORPUS.len() as u64 - 1) as usize;
+        // switch groups of verbs off / boost them
+        let groups: &[&[Verb]] = &[
+            &[Verb::AddCluster, Verb::RemoveCluster, Verb::SetHealthCheck, Verb::RemoveHealthCheck],
+            &[Verb::AddHttpListener, Verb::UpdateHttpListener, Verb::AddHttpFrontend, Verb::RemoveHttpFrontend],
+            &[Verb::AddHttpsListener, Verb::UpdateHttpsListener, Verb::AddHttpsFrontend, Verb::RemoveHttpsFrontend],
+            &[Verb::AddTcpListener, Verb::UpdateTcpListener, Verb::AddTcpFrontend, Verb::RemoveTcpFrontend],
+            &[Verb::AddUdpListener, Verb::UpdateUdpListener, Verb::AddUdpFrontend, Verb::RemoveUdpFrontend],
+            &[Verb::AddBackend, Verb::RemoveBackend],
+            &[Verb::AddCertificate, Verb::ReplaceCertificate, Verb::RemoveCertificate],
+            &[Verb::RemoveListener, Verb::ActivateListener, Verb::DeactivateListener],
+        ];
+        for g in groups {
+            let f = *rng.pick(&[0u32, 1, 1, 1, 1, 3, 6]);
+            for v in g.iter() { if let Some(w) = o.weights.get_mut(v) { *w *= f; } }
+        }
+        if o.weights.values().all(|w| *w == 0) { o.weights = GenOpts::full().weights; }
+        o.invalid_pm = *rng.pick(&[0u32, 30, 80, 200]);
+        o.partial_pm = *rng.pick(&[0u32, 100, 300, 600]);
+        o.reuse_pm = *rng.pick(&[300u32, 600, 850]);
+        o.opt_pm = *rng.pick(&[60u32, 250, 500]);
+        o
+    }
+    /// only well-formed arguments (for consumers that want valid histories)
+    pub fn valid_only(mut self) -> GenOpts { self.invalid_pm = 0; self.partial_pm = 0; self.weights.insert(Verb::NonConfig, 0); self }
+}
+
+fn default_weight(v: Verb) -> u32 {
+    match v {
+        Verb::AddCluster | Verb::AddBackend | Verb::AddHttpFrontend | Verb::AddHttpsFrontend | Verb::AddCertificate => 6,
+        Verb::AddTcpFrontend | Verb::AddUdpFrontend => 4,
+        Verb::AddHttpListener | Verb::AddHttpsListener | Verb::AddTcpListener | Verb::AddUdpListener => 4,
+        Verb::UpdateHttpListener | Verb::UpdateHttpsListener => 4,
+        Verb::UpdateTcpListener | Verb::UpdateUdpListener => 2,
+        Verb::RemoveBackend | Verb::RemoveCertificate | Verb::ReplaceCertificate => 4,
+        Verb::NonConfig => 1,
+        _ => 3,
+    }
+}
+
+// ------------------------------------------------------------------------------- generator memory
+
+/// What the history has emitted so far (no knowledge of what was accepted).
+#[derive(Clone, Debug, Default)]
+pub struct Mem {
+    pub listeners: Vec<(i32, SocketAddress)>,
+    pub http_fronts: Vec<RequestHttpFrontend>,
+    pub https_fronts: Vec<RequestHttpFrontend>,
+    pub tcp_fronts: Vec<RequestTcpFrontend>,
+    pub udp_fronts: Vec<RequestUdpFrontend>,
+    pub backends: Vec<AddBackend>,
+    /// (address, corpus index)
+    pub certs: Vec<(SocketAddress, usize)>,
+}
+
+pub fn sa(a: SocketAddr) -> SocketAddress { a.into() }
+
+/// Independent conversion of the wire address to a socket address (documented in request.rs: missing ip =
+/// unspecified v4, port truncated to 16 bits).
+pub fn to_sockaddr(a: &SocketAddress) -> SocketAddr {
+    use sozu_command_lib::proto::command::ip_address::Inner;
+    let ip = match a.ip.inner {
+        Some(Inner::V4(v)) => std::net::IpAddr::V4(std::net::Ipv4Addr::from(v)),
+        Some(Inner::V6(v)) => std::net::IpAddr::V6(std::net::Ipv6Addr::from(((v.high as u128) << 64) | v.low as u128)),
+        None => std::net::IpAddr::V4(std::net::Ipv4Addr::UNSPECIFIED),
+    };
+    SocketAddr::new(ip, a.port as u16)
+}
+
+struct G<'a> {
+    rng: &'a mut Prng,
+    o: &'a GenOpts,
+    mem: Mem,
+}
+
+macro_rules! h2_knobs {
+    ($g:expr, $t:expr, $zero_ok:expr) => {{
+        let g = &mut *$g;
+        macro_rules! k { ($f:ident, $ty:ty) => { if g.opt(3) { $t.$f = Some(g.knob($zero_ok) as $ty); } }; }
+        k!(h2_max_rst_stream_per_window, u32); k!(h2_max_ping_per_window, u32); k!(h2_max_settings_per_window, u32);
+        k!(h2_max_empty_data_per_window, u32); k!(h2_max_continuation_frames, u32); k!(h2_max_glitch_count, u32);
+        k!(h2_initial_connection_window, u32); k!(h2_max_concurrent_streams, u32);
+        if g.opt(3) { $t.h2_stream_shrink_ratio = Some(if $zero_ok { g.knob(true) as u32 } else { 2 + g.rng.below(8) as u32 }); }
+        k!(h2_max_rst_stream_lifetime, u64); k!(h2_max_rst_stream_abusive_lifetime, u64); k!(h2_max_rst_stream_emitted_lifetime, u64);
+        k!(h2_max_header_list_size, u32); k!(h2_max_header_table_size, u32); k!(h2_max_header_fields, u32);
+        k!(h2_stream_idle_timeout_seconds, u32); k!(h2_max_window_update_stream0_per_window, u32);
+        if g.opt(3) { $t.h2_graceful_shutdown_deadline_seconds = Some(*g.rng.pick(&[0u32, 5, 30])); }
+    }};
+}
+
+impl<'a> G<'a> {
+    fn invalid(&mut self) -> bool { self.o.invalid_pm > 0 && self.rng.below(1000) < self.o.invalid_pm as u64 }
+    fn partial(&mut self) -> bool { self.o.partial_pm > 0 && self.rng.below(1000) < self.o.partial_pm as u64 }
+    fn reuse(&mut self) -> bool { self.rng.below(1000) < self.o.reuse_pm as u64 }
+    /// optional field present? `div` scales the probability down for rarely interesting fields
+    fn opt(&mut self, div: u64) -> bool { self.rng.below(1000 * div) < self.o.opt_pm as u64 }
+    fn knob(&mut self, zero_ok: bool) -> u64 {
+        if zero_ok { *self.rng.pick(&[0u64, 1, 2, 100, 65_535, u32::MAX as u64]) } else { *self.rng.pick(&[1u64, 2, 100, 65_535, u32::MAX as u64]) }
+    }
+    fn timeout(&mut self) -> u32 { *self.rng.pick(&[0u32, 1, 10, 30, 60, 3600, u32::MAX]) }
+    fn addr(&mut self) -> SocketAddress {
+        let a = *self.rng.pick(&self.o.addrs);
+        let mut s = sa(a);
+        if self.invalid() {
+            if self.rng.chance(1, 2) { s.ip = IpAddress { inner: None }; } else { s.port += 65536; }
+        }
+        s
+    }
+    fn plain_addr(&mut self) -> SocketAddress { sa(*self.rng.pick(&self.o.addrs)) }
+    fn backend_addr(&mut self) -> SocketAddress { sa(*self.rng.pick(&self.o.backend_addrs)) }
+    fn cluster(&mut self) -> String {
+        if self.invalid() { return self.rng.pick(&["", "nope", "c0\u{0}x"]).to_string(); }
+        self.rng.pick(&self.o.clusters).clone()
+    }
+    fn host(&mut self) -> String {
+        if self.invalid() { return self.rng.pick(&["", "bad host", "é.test"]).to_string(); }
+        self.rng.pick(&self.o.hosts).clone()
+    }
+    fn tags(&mut self) -> BTreeMap<String, String> {
+        let mut m = BTreeMap::new();
+        let n = *self.rng.pick(&[0u64, 0, 1, 2]);
+        for _ in 0..n { m.insert(self.rng.pick(&["owner", "env", ""]).to_string(), self.rng.pick(&["x", "y", "", "a\"b\n"]).to_string()); }
+        m
+    }
+    fn text(&mut self) -> String {
+        if self.o.big_text_pm > 0 && self.rng.below(1000) < self.o.big_text_pm as u64 {
+            let n = *self.rng.pick(&[30_000usize, 30_000, 70_000, 70_000, 120_000, 210_000]);
+            let unit = "<p>sozu \"503\" \\ page\n</p>";
+            return unit.repeat(n / unit.len() + 1);
+        }
+        self.small_text()
+    }
+    fn small_text(&mut self) -> String { self.rng.pick(&["", "x", "HTTP/1.1 503 Service Unavailable\r\n\r\n", "tmpl %REQUEST_ID \u{0}\u{7f}é"]).to_string() }
+    fn answers_map(&mut self) -> BTreeMap<String, String> {
+        let mut m = BTreeMap::new();
+        if self.opt(2) { let n = 1 + self.rng.below(2); for _ in 0..n { m.insert(self.rng.pick(&["404", "503", "abc", ""]).to_string(), self.text()); } }
+        m
+    }
+    fn custom_answers(&mut self) -> CustomHttpAnswers {
+        let mut c = CustomHttpAnswers::default();
+        if self.rng.chance(1, 2) { c.answer_404 = Some(self.text()); }
+        if self.rng.chance(1, 3) { c.answer_503 = Some(self.text()); }
+        if self.rng.chance(1, 4) { c.answer_301 = Some(self.text()); }
+        if self.rng.chance(1, 6) { c.answer_429 = Some(self.text()); }
+        c
+    }
+    fn sozu_id_header(&mut self, bad: bool) -> String {
+        if bad { self.rng.pick(&["", "bad header", "x:y", "a\r\nb", "é"]).to_string() } else { self.rng.pick(&["Sozu-Id", "x-id", "X_1"]).to_string() }
+    }
+    fn hsts(&mut self) -> HstsConfig {
+        HstsConfig { enabled: Some(self.rng.chance(1, 2)), max_age: if self.rng.chance(1, 2) { Some(*self.rng.pick(&[0u32, 31536000])) } else { None }, include_subdomains: if self.rng.chance(1, 3) { Some(true) } else { None }, preload: None, force_replace_backend: if self.rng.chance(1, 4) { Some(false) } else { None } }
+    }
+    fn health(&mut self, bad: bool) -> HealthCheckConfig {
+        let mut h = HealthCheckConfig { uri: self.rng.pick(&["/", "/health", "/h?x=1"]).to_string(), interval: *self.rng.pick(&[1u32, 10]), timeout: *self.rng.pick(&[1u32, 5]), healthy_threshold: *self.rng.pick(&[1u32, 3]), unhealthy_threshold: *self.rng.pick(&[1u32, 3]), expected_status: *self.rng.pick(&[0u32, 200, 999]) };
+        if bad {
+            match self.rng.below(4) { 0 => h.uri = "health".into(), 1 => h.uri = "/a\r\nX: y".into(), 2 => h.interval = 0, _ => h.unhealthy_threshold = 0 }
+        }
+        h
+    }
+
+    // ---- clusters
+    fn gen_cluster(&mut self) -> Cluster {
+        let mut c = Cluster { cluster_id: self.cluster(), sticky_session: self.rng.chance(1, 3), https_redirect: self.rng.chance(1, 4), ..Default::default() };
+        c.load_balancing = if self.invalid() { 99 } else { self.rng.below(5) as i32 };
+        if self.opt(1) { c.proxy_protocol = Some(if self.invalid() { 9 } else { self.rng.below(3) as i32 }); }
+        if self.opt(1) { c.answer_503 = Some(self.text()); }
+        if self.opt(1) { c.load_metric = Some(self.rng.below(3) as i32); }
+        if self.opt(1) { c.http2 = Some(self.rng.chance(1, 2)); }
+        c.answers = self.answers_map();
+        if self.opt(1) { c.https_redirect_port = Some(*self.rng.pick(&[443u32, 0, 70000])); }
+        if self.opt(2) { c.authorized_hashes = vec![self.rng.pick(&["user:0123abcd", "", "x"]).to_string()]; }
+        if self.opt(2) { c.www_authenticate = Some(self.text()); }
+        if self.opt(1) { c.max_connections_per_ip = Some(*self.rng.pick(&[0u64, 1, u64::MAX, 1 << 53])); }
+        if self.opt(1) { c.retry_after = Some(*self.rng.pick(&[0u32, 30])); }
+        if self.opt(1) { let bad = self.invalid(); c.health_check = Some(self.health(bad)); }
+        if self.opt(2) {
+            let mut u = UdpClusterConfig::default();
+            if self.rng.chance(1, 2) { u.affinity_key = Some(self.rng.below(2) as i32); }
+            if self.rng.chance(1, 2) { u.responses = Some(*self.rng.pick(&[0u32, 1])); }
+            if self.rng.chance(1, 3) { u.send_proxy_protocol = Some(true); }
+            if self.rng.chance(1, 2) {
+                u.health = Some(UdpHealthConfig { mode: Some(self.rng.below(3) as i32), tcp_port: if self.rng.chance(1, 2) { Some(53) } else { None }, udp_probe_payload: if self.rng.chance(1, 2) { Some(vec![0, 255, 10, 34]) } else { None }, ..Default::default() });
+            }
+            c.udp = Some(u);
+        }
+        c
+    }
+
+    // ---- listeners
+    fn gen_http_listener(&mut self) -> HttpListenerConfig {
+        let mut l = HttpListenerConfig { address: self.addr(), ..Default::default() };
+        if self.opt(1) { l.public_address = Some(self.plain_addr()); }
+        l.expect_proxy = self.rng.chance(1, 4);
+        l.sticky_name = self.rng.pick(&["SOZUBALANCEID", "", "sid"]).to_string();
+        if self.opt(1) { l.front_timeout = self.timeout(); }
+        if self.opt(1) { l.back_timeout = self.timeout(); }
+        if self.opt(1) { l.connect_timeout = self.timeout(); }
+        if self.opt(1) { l.request_timeout = self.timeout(); }
+        l.active = self.rng.chance(1, 5);
+        if self.opt(1) { l.http_answers = Some(self.custom_answers()); }
+        h2_knobs!(self, l, true);
+        if self.opt(1) { let bad = self.invalid(); l.sozu_id_header = Some(self.sozu_id_header(bad)); }
+        l.answers = self.answers_map();
+        if self.opt(2) { l.elide_x_real_ip = Some(self.rng.chance(1, 2)); }
+        if self.opt(2) { l.send_x_real_ip = Some(self.rng.chance(1, 2)); }
+        l
+    }
+    fn gen_https_listener(&mut self) -> HttpsListenerConfig {
+        let mut l = HttpsListenerConfig { address: self.addr(), ..Default::default() };
+        if self.opt(1) { l.public_address = Some(self.plain_addr()); }
+        l.expect_proxy = self.rng.chance(1, 4);
+        l.sticky_name = self.rng.pick(&["SOZUBALANCEID", "", "sid"]).to_string();
+        if self.opt(1) { l.front_timeout = self.timeout(); }
+        if self.opt(1) { l.back_timeout = self.timeout(); }
+        if self.opt(1) { l.connect_timeout = self.timeout(); }
+        if self.opt(1) { l.request_timeout = self.timeout(); }
+        l.active = self.rng.chance(1, 5);
+        if self.opt(1) { l.versions = vec![4, 5]; if self.invalid() { l.versions.push(99); } }
+        if self.opt(2) { l.cipher_list = vec!["TLS13_AES_128_GCM_SHA256".into(), "".into()]; }
+        if self.opt(2) { l.cipher_suites = vec!["TLS_AES_256_GCM_SHA384".into()]; }
+        if self.opt(2) { l.signature_algorithms = vec!["ECDSA+SHA256".into()]; }
+        if self.opt(2) { l.groups_list = vec!["x25519".into()]; }
+        if self.opt(2) {
+            let i = self.rng.below(self.o.n_certs as u64) as usize;
+            l.certificate = Some(self.cert_text(i)); l.key = Some(self.key_text(i));
+            if self.rng.chance(1, 2) { l.certificate_chain = vec![self.chain_text()]; }
+        }
+        l.send_tls13_tickets = *self.rng.pick(&[0u64, 4, u64::MAX]);
+        if self.opt(1) { l.http_answers = Some(self.custom_answers()); }
+        if self.opt(1) { l.alpn_protocols = match self.rng.below(3) { 0 => vec!["h2".into(), "http/1.1".into()], 1 => vec!["http/1.1".into()], _ => vec![] }; }
+        h2_knobs!(self, l, true);
+        if self.opt(1) { l.strict_sni_binding = Some(self.rng.chance(1, 2)); }
+        if self.opt(1) { l.disable_http11 = Some(self.rng.chance(1, 2)); }
+        if self.opt(1) { let bad = self.invalid(); l.sozu_id_header = Some(self.sozu_id_header(bad)); }
+        l.answers = self.answers_map();
+        if self.opt(2) { l.elide_x_real_ip = Some(self.rng.chance(1, 2)); }
+        if self.opt(2) { l.send_x_real_ip = Some(self.rng.chance(1, 2)); }
+        if self.opt(2) { l.hsts = Some(self.hsts()); }
+        l
+    }
+    fn gen_tcp_listener(&mut self) -> TcpListenerConfig {
+        let mut l = TcpListenerConfig { address: self.addr(), ..Default::default() };
+        if self.opt(1) { l.public_address = Some(self.plain_addr()); }
+        l.expect_proxy = self.rng.chance(1, 4);
+        if self.opt(1) { l.front_timeout = self.timeout(); }
+        if self.opt(1) { l.back_timeout = self.timeout(); }
+        if self.opt(1) { l.connect_timeout = self.timeout(); }
+        l.active = self.rng.chance(1, 5);
+        l
+    }
+    fn gen_udp_listener(&mut self) -> UdpListenerConfig {
+        let mut l = UdpListenerConfig { address: self.addr(), ..Default::default() };
+        if self.opt(1) { l.public_address = Some(self.plain_addr()); }
+        if self.opt(1) { l.front_timeout = self.timeout(); }
+        if self.opt(1) { l.back_timeout = self.timeout(); }
+        if self.opt(1) { l.max_rx_datagram_size = *self.rng.pick(&[0u32, 512, 65535]); }
+        if self.opt(1) { l.max_flows = *self.rng.pick(&[0u32, 1, 1000]); }
+        l.active = self.rng.chance(1, 5);
+        l
+    }
+    /// address of a listener of this kind emitted earlier, or any address
+    fn listener_addr(&mut self, kind: i32) -> SocketAddress {
+        if self.reuse() {
+            let c: Vec<SocketAddress> = self.mem.listeners.iter().filter(|(k, _)| *k == kind).map(|(_, a)| *a).collect();
+            if !c.is_empty() { return *self.rng.pick(&c); }
+        }
+        self.addr()
+    }
+    fn listener_kind(&mut self) -> i32 {
+        if self.invalid() { return *self.rng.pick(&[4i32, 7, -1]); }
+        if self.reuse() && !self.mem.listeners.is_empty() { return self.rng.pick(&self.mem.listeners).0; }
+        self.rng.below(4) as i32
+    }
+    fn gen_update_http(&mut self) -> UpdateHttpListenerConfig {
+        let mut p = UpdateHttpListenerConfig { address: self.listener_addr(0), ..Default::default() };
+        if self.opt(1) { p.public_address = Some(self.plain_addr()); }
+        if self.opt(1) { p.expect_proxy = Some(self.rng.chance(1, 2)); }
+        if self.opt(1) { p.sticky_name = Some(self.rng.pick(&["SOZUBALANCEID", "", "sid2"]).to_string()); }
+        if self.opt(1) { p.front_timeout = Some(self.timeout()); }
+        if self.opt(1) { p.back_timeout = Some(self.timeout()); }
+        if self.opt(1) { p.connect_timeout = Some(self.timeout()); }
+        if self.opt(1) { p.request_timeout = Some(self.timeout()); }
+        if self.opt(1) { p.http_answers = Some(self.custom_answers()); }
+        h2_knobs!(self, p, false);
+        if self.opt(1) { p.sozu_id_header = Some(self.sozu_id_header(false)); }
+        if self.opt(3) { p.answers = self.answers_map(); }
+        if self.opt(3) { p.elide_x_real_ip = Some(self.rng.chance(1, 2)); }
+        if self.opt(3) { p.send_x_real_ip = Some(self.rng.chance(1, 2)); }
+        if self.partial() {
+            // make sure there is something good to apply, then exactly one bad field
+            if p.front_timeout.is_none() { p.front_timeout = Some(self.timeout()); }
+            if p.expect_proxy.is_none() { p.expect_proxy = Some(self.rng.chance(1, 2)); }
+            match self.rng.below(4) {
+                0 => p.sozu_id_header = Some(self.sozu_id_header(true)),
+                1 => p.h2_max_ping_per_window = Some(0),
+                2 => p.h2_stream_shrink_ratio = Some(1),
+                _ => { p.h2_max_header_fields = Some(0); p.sticky_name = Some("sid3".into()); }
+            }
+        }
+        p
+    }
+    fn gen_update_https(&mut self) -> UpdateHttpsListenerConfig {
+        let mut p = UpdateHttpsListenerConfig { address: self.listener_addr(1), ..Default::default() };
+        if self.opt(1) { p.public_address = Some(self.plain_addr()); }
+        if self.opt(1) { p.expect_proxy = Some(self.rng.chance(1, 2)); }
+        if self.opt(1) { p.sticky_name = Some(self.rng.pick(&["SOZUBALANCEID", "", "sid2"]).to_string()); }
+        if self.opt(1) { p.front_timeout = Some(self.timeout()); }
+        if self.opt(1) { p.back_timeout = Some(self.timeout()); }
+        if self.opt(1) { p.connect_timeout = Some(self.timeout()); }
+        if self.opt(1) { p.request_timeout = Some(self.timeout()); }
+        if self.opt(1) { p.http_answers = Some(self.custom_answers()); }
+        if self.opt(1) { p.alpn_protocols = Some(AlpnProtocols { values: match self.rng.below(3) { 0 => vec!["h2".into(), "http/1.1".into()], 1 => vec!["h2".into()], _ => vec![] } }); }
+        if self.opt(1) { p.strict_sni_binding = Some(self.rng.chance(1, 2)); }
+        if self.opt(1) { p.disable_http11 = Some(self.rng.chance(1, 2)); }
+        h2_knobs!(self, p, false);
+        if self.opt(1) { p.sozu_id_header = Some(self.sozu_id_header(false)); }
+        if self.opt(3) { p.answers = self.answers_map(); }
+        if self.opt(3) { p.elide_x_real_ip = Some(self.rng.chance(1, 2)); }
+        if self.opt(3) { p.send_x_real_ip = Some(self.rng.chance(1, 2)); }
+        if self.opt(3) { p.hsts = Some(self.hsts()); }
+        if self.partial() {
+            if p.back_timeout.is_none() { p.back_timeout = Some(self.timeout()); }
+            if p.strict_sni_binding.is_none() { p.strict_sni_binding = Some(self.rng.chance(1, 2)); }
+            match self.rng.below(4) {
+                0 => p.sozu_id_header = Some(self.sozu_id_header(true)),
+                1 => p.alpn_protocols = Some(AlpnProtocols { values: vec!["h2".into(), self.rng.pick(&["h3", "", "HTTP/1.1"]).to_string()] }),
+                2 => p.h2_max_rst_stream_per_window = Some(0),
+                _ => p.h2_stream_shrink_ratio = Some(0),
+            }
+        }
+        p
+    }
+    fn gen_update_tcp(&mut self) -> UpdateTcpListenerConfig {
+        let mut p = UpdateTcpListenerConfig { address: self.listener_addr(2), ..Default::default() };
+        if self.opt(1) { p.public_address = Some(self.plain_addr()); }
+        if self.rng.chance(1, 2) { p.expect_proxy = Some(self.rng.chance(1, 2)); }
+        if self.rng.chance(1, 2) { p.front_timeout = Some(self.timeout()); }
+        if self.opt(1) { p.back_timeout = Some(self.timeout()); }
+        if self.opt(1) { p.connect_timeout = Some(self.timeout()); }
+        p
+    }
+    fn gen_update_udp(&mut self) -> UpdateUdpListenerConfig {
+        let mut p = UpdateUdpListenerConfig { address: self.listener_addr(3), ..Default::default() };
+        if self.opt(1) { p.public_address = Some(self.plain_addr()); }
+        if self.rng.chance(1, 2) { p.front_timeout = Some(self.timeout()); }
+        if self.opt(1) { p.back_timeout = Some(self.timeout()); }
+        if self.rng.chance(1, 2) { p.max_rx_datagram_size = Some(*self.rng.pick(&[0u32, 1200, 65535])); }
+        if self.opt(1) { p.max_flows = Some(*self.rng.pick(&[0u32, 7])); }
+        p
+    }
+
+    // ---- frontends
+    fn gen_http_front(&mut self) -> RequestHttpFrontend {
+        let mut f = RequestHttpFrontend { address: self.addr(), hostname: self.host(), ..Default::default() };
+        f.cluster_id = if self.rng.chance(1, 6) { None } else { Some(self.cluster()) };
+        f.path = match self.rng.below(5) {
+            0 => PathRule { kind: 0, value: String::new() },
+            1 => PathRule { kind: 0, value: self.rng.pick(&["/", "/api"]).to_string() },
+            2 => PathRule { kind: 1, value: self.rng.pick(&["/[a-z]+", "("]).to_string() },
+            3 => PathRule { kind: 2, value: "/x".into() },
+            _ => PathRule { kind: 0, value: "/api".into() },
+        };
+        if self.invalid() { f.path.kind = *self.rng.pick(&[3i32, 9]); }
+        if self.rng.chance(1, 4) { f.method = Some(self.rng.pick(&["GET", "POST", ""]).to_string()); }
+        f.position = if self.invalid() { 9 } else { self.rng.below(3) as i32 };
+        f.tags = self.tags();
+        if self.opt(2) { f.redirect = Some(if self.invalid() { 9 } else { self.rng.below(5) as i32 }); }
+        if self.opt(2) { f.required_auth = Some(self.rng.chance(1, 2)); }
+        if self.opt(2) { f.redirect_scheme = Some(self.rng.below(3) as i32); }
+        if self.opt(2) { f.redirect_template = Some(self.text()); }
+        if self.opt(2) { f.rewrite_host = Some("h.test".into()); }
+        if self.opt(2) { f.rewrite_path = Some("/p".into()); }
+        if self.opt(2) { f.rewrite_port = Some(*self.rng.pick(&[0u32, 8080, 70000])); }
+        if self.opt(2) { f.headers = vec![Header { position: if self.invalid() { 9 } else { self.rng.below(4) as i32 }, key: "X-A".into(), val: self.text() }]; }
+        if self.opt(2) { f.hsts = Some(self.hsts()); }
+        f
+    }
+    fn gen_tcp_front(&mut self) -> RequestTcpFrontend { RequestTcpFrontend { cluster_id: self.cluster(), address: self.addr(), tags: self.tags() } }
+    fn gen_udp_front(&mut self) -> RequestUdpFrontend { RequestUdpFrontend { cluster_id: self.cluster(), address: self.addr(), tags: self.tags() } }
+
+    // ---- backends
+    fn gen_backend(&mut self) -> AddBackend {
+        let mut b = AddBackend { cluster_id: self.cluster(), backend_id: self.rng.pick(&self.o.backend_ids).clone(), address: self.backend_addr(), ..Default::default() };
+        if self.invalid() { b.address.ip = IpAddress { inner: None }; }
+        if self.opt(1) { b.sticky_id = Some(self.rng.pick(&["s0", "", "s1"]).to_string()); }
+        if self.opt(1) { b.load_balancing_parameters = Some(LoadBalancingParams { weight: *self.rng.pick(&[0i32, 1, 100, -1, i32::MAX]) }); }
+        if self.opt(1) { b.backup = Some(self.rng.chance(1, 2)); }
+        b
+    }
+
+    // ---- certificates
+    fn cert_text(&mut self, i: usize) -> String { if self.o.symbolic_certs { format!("@cert:{i}") } else { CORPUS[i % CORPUS.len()].0.to_string() } }
+    fn key_text(&mut self, i: usize) -> String { if self.o.symbolic_certs { format!("@key:{i}") } else { CORPUS[i % CORPUS.len()].1.to_string() } }
+    fn chain_text(&mut self) -> String { if self.o.symbolic_certs { "@chain".into() } else { CHAIN.to_string() } }
+    fn sym(&mut self, s: String) -> String { if self.o.symbolic_certs { s } else { expand_pem(&s) } }
+    /// `bad`: 0 none, else a kind of invalid certificate text
+    fn gen_cak(&mut self, i: usize, bad: u64) -> CertificateAndKey {
+        let mut c = CertificateAndKey { certificate: self.cert_text(i), key: self.key_text(i), ..Default::default() };
+        match bad {
+            0 => {}
+            1 => c.certificate = String::new(),
+            2 => c.certificate = "not a pem".into(),
+            3 => c.certificate = self.sym(format!("@pemtrunc:{i}")),
+            4 => c.certificate = self.sym(format!("@dertrunc:{i}")),
+            _ => c.certificate = self.key_text(i), // a PEM object that is not a certificate
+        }
+        if self.opt(1) { c.certificate_chain = vec![self.chain_text()]; }
+        if self.opt(1) { c.versions = vec![4, 5]; if self.invalid() { c.versions.push(99); } }
+        if self.rng.chance(1, 4) { c.names = vec![self.rng.pick(&self.o.hosts).clone()]; if self.rng.chance(1, 3) { c.names.push("extra.test".into()); } }
+        c
+    }
+    fn bad_cert_kind(&mut self) -> u64 { 1 + self.rng.below(5) }
+    fn fingerprint_arg(&mut self, address: &SocketAddress) -> String {
+        if self.invalid() { return self.rng.pick(&["zz", "abc", "", "00"]).to_string(); }
+        if self.reuse() {
+            let c: Vec<usize> = self.mem.certs.iter().filter(|(a, _)| a == address).map(|(_, i)| *i).collect();
+            if !c.is_empty() { let i = *self.rng.pick(&c); let f = corpus_fingerprint(i); return if self.rng.chance(1, 8) { f.to_uppercase() } else { f }; }
+        }
+        corpus_fingerprint(self.rng.below(self.o.n_certs as u64) as usize)
+    }
+    fn cert_addr(&mut self) -> SocketAddress {
+        if self.reuse() && !self.mem.certs.is_empty() { return self.rng.pick(&self.mem.certs).0; }
+        self.addr()
+    }
+
+    fn make(&mut self, v: Verb) -> Request {
+        let t = match v {
+            Verb::AddCluster => RequestType::AddCluster(self.gen_cluster()),
+            Verb::RemoveCluster => RequestType::RemoveCluster(self.cluster()),
+            Verb::SetHealthCheck => { let bad = self.invalid() || (self.partial() && self.rng.chance(1, 3)); RequestType::SetHealthCheck(SetHealthCheck { cluster_id: self.cluster(), config: self.health(bad) }) }
+            Verb::RemoveHealthCheck => RequestType::RemoveHealthCheck(self.cluster()),
+            Verb::AddHttpListener => { let l = self.gen_http_listener(); self.mem.listeners.push((0, l.address)); RequestType::AddHttpListener(l) }
+            Verb::AddHttpsListener => { let l = self.gen_https_listener(); self.mem.listeners.push((1, l.address)); RequestType::AddHttpsListener(l) }
+            Verb::AddTcpListener => { let l = self.gen_tcp_listener(); self.mem.listeners.push((2, l.address)); RequestType::AddTcpListener(l) }
+            Verb::AddUdpListener => { let l = self.gen_udp_listener(); self.mem.listeners.push((3, l.address)); RequestType::AddUdpListener(l) }
+            Verb::RemoveListener => { let k = self.listener_kind(); RequestType::RemoveListener(RemoveListener { address: self.listener_addr(k), proxy: k }) }
+            Verb::ActivateListener => { let k = self.listener_kind(); RequestType::ActivateListener(ActivateListener { address: self.listener_addr(k), proxy: k, from_scm: self.rng.chance(1, 8) }) }
+            Verb::DeactivateListener => { let k = self.listener_kind(); RequestType::DeactivateListener(DeactivateListener { address: self.listener_addr(k), proxy: k, to_scm: self.rng.chance(1, 8) }) }
+            Verb::UpdateHttpListener => RequestType::UpdateHttpListener(self.gen_update_http()),
+            Verb::UpdateHttpsListener => RequestType::UpdateHttpsListener(self.gen_update_https()),
+            Verb::UpdateTcpListener => RequestType::UpdateTcpListener(self.gen_update_tcp()),
+            Verb::UpdateUdpListener => RequestType::UpdateUdpListener(self.gen_update_udp()),
+            Verb::AddHttpFrontend | Verb::AddHttpsFrontend => {
+                let https = v == Verb::AddHttpsFrontend;
+                let pool = if https { self.mem.https_fronts.clone() } else { self.mem.http_fronts.clone() };
+                // sometimes re-add an earlier frontend (duplicate) or a variant that differs only in tags / policy
+                let f = if !pool.is_empty() && self.rng.chance(1, 5) {
+                    let mut f = self.rng.pick(&pool).clone();
+                    match self.rng.below(3) { 0 => {} 1 => f.tags = self.tags(), _ => f.cluster_id = Some(self.cluster()) }
+                    f
+                } else { self.gen_http_front() };
+                if https { self.mem.https_fronts.push(f.clone()); RequestType::AddHttpsFrontend(f) } else { self.mem.http_fronts.push(f.clone()); RequestType::AddHttpFrontend(f) }
+            }
+            Verb::RemoveHttpFrontend | Verb::RemoveHttpsFrontend => {
+                let https = v == Verb::RemoveHttpsFrontend;
+                let pool = if https { self.mem.https_fronts.clone() } else { self.mem.http_fronts.clone() };
+                let f = if !pool.is_empty() && self.reuse() {
+                    let mut f = self.rng.pick(&pool).clone();
+                    // the removal may name the frontend with other non-key attributes
+                    if self.rng.chance(1, 4) { f.tags = self.tags(); }
+                    if self.rng.chance(1, 6) { f.cluster_id = None; }
+                    f
+                } else { self.gen_http_front() };
+                if https { RequestType::RemoveHttpsFrontend(f) } else { RequestType::RemoveHttpFrontend(f) }
+            }
+            Verb::AddTcpFrontend => {
+                let f = if !self.mem.tcp_fronts.is_empty() && self.rng.chance(1, 4) { let mut f = self.rng.pick(&self.mem.tcp_fronts).clone(); if self.rng.chance(2, 3) { f.tags = self.tags(); } f } else { self.gen_tcp_front() };
+                self.mem.tcp_fronts.push(f.clone()); RequestType::AddTcpFrontend(f)
+            }
+            Verb::RemoveTcpFrontend => {
+                let f = if !self.mem.tcp_fronts.is_empty() && self.reuse() { let mut f = self.rng.pick(&self.mem.tcp_fronts).clone(); if self.rng.chance(1, 4) { f.tags = self.tags(); } f } else { self.gen_tcp_front() };
+                RequestType::RemoveTcpFrontend(f)
+            }
+            Verb::AddUdpFrontend => {
+                let f = if !self.mem.udp_fronts.is_empty() && self.rng.chance(1, 4) { let mut f = self.rng.pick(&self.mem.udp_fronts).clone(); if self.rng.chance(2, 3) { f.tags = self.tags(); } f } else { self.gen_udp_front() };
+                self.mem.udp_fronts.push(f.clone()); RequestType::AddUdpFrontend(f)
+            }
+            Verb::RemoveUdpFrontend => {
+                let f = if !self.mem.udp_fronts.is_empty() && self.reuse() { let mut f = self.rng.pick(&self.mem.udp_fronts).clone(); if self.rng.chance(1, 4) { f.tags = self.tags(); } f } else { self.gen_udp_front() };
+                RequestType::RemoveUdpFrontend(f)
+            }
+            Verb::AddBackend => {
+                let b = if !self.mem.backends.is_empty() && self.rng.chance(1, 3) {
+                    // same backend again with other parameters, or the same id at another address
+                    let mut b = self.rng.pick(&self.mem.backends).clone();
+                    match self.rng.below(3) { 0 => b.address = self.backend_addr(), 1 => b.load_balancing_parameters = Some(LoadBalancingParams { weight: self.rng.below(5) as i32 }), _ => b.sticky_id = Some("s9".into()) }
+                    b
+                } else { self.gen_backend() };
+                self.mem.backends.push(b.clone()); RequestType::AddBackend(b)
+            }
+            Verb::RemoveBackend => {
+                let r = if !self.mem.backends.is_empty() && self.reuse() {
+                    let b = self.rng.pick(&self.mem.backends).clone();
+                    let mut r = RemoveBackend { cluster_id: b.cluster_id, backend_id: b.backend_id, address: b.address };
+                    if self.rng.chance(1, 6) { r.address = self.backend_addr(); }
+                    r
+                } else { RemoveBackend { cluster_id: self.cluster(), backend_id: self.rng.pick(&self.o.backend_ids).clone(), address: self.backend_addr() } };
+                RequestType::RemoveBackend(r)
+            }
+            Verb::AddCertificate => {
+                let address = self.cert_addr();
+                let i = self.rng.below(self.o.n_certs as u64) as usize;
+                let bad = if self.invalid() || (self.partial() && self.rng.chance(1, 2)) { self.bad_cert_kind() } else { 0 };
+                let c = self.gen_cak(i, bad);
+                if bad == 0 { self.mem.certs.push((address, i)); }
+                RequestType::AddCertificate(AddCertificate { address, certificate: c, expired_at: if self.opt(1) { Some(*self.rng.pick(&[0i64, 1_900_000_000, -1])) } else { None } })
+            }
+            Verb::ReplaceCertificate => {
+                let address = self.cert_addr();
+                let old_fingerprint = self.fingerprint_arg(&address);
+                let i = self.rng.below(self.o.n_certs as u64) as usize;
+                let bad = if self.partial() || self.invalid() { self.bad_cert_kind() } else { 0 };
+                let c = self.gen_cak(i, bad);
+                if bad == 0 { self.mem.certs.push((address, i)); }
+                RequestType::ReplaceCertificate(ReplaceCertificate { address, new_certificate: c, old_fingerprint, new_expired_at: if self.opt(1) { Some(1_900_000_000) } else { None } })
+            }
+            Verb::RemoveCertificate => { let address = self.cert_addr(); RequestType::RemoveCertificate(RemoveCertificate { address, fingerprint: self.fingerprint_arg(&address) }) }
+            Verb::NonConfig => match self.rng.below(3) {
+                0 => return Request { request_type: None },
+                1 => RequestType::Status(Status {}),
+                _ => RequestType::SaveState("/nonexistent/state.json".into()),
+            },
+        };
+        t.into()
+    }
+
+    fn pick_verb(&mut self) -> Verb {
+        let total: u64 = self.o.weights.values().map(|w| *w as u64).sum();
+        let mut x = self.rng.below(total.max(1));
+        for (v, w) in &self.o.weights {
+            if x < *w as u64 { return *v; }
+            x -= *w as u64;
+        }
+        Verb::AddCluster
+    }
+}
+
+/// A seeded history of `len` requests. With `opts.symbolic_certs` the PEM fields are symbolic (apply
+/// `materialize` before use); otherwise they carry the real text.
+pub fn gen_history(rng: &mut Prng, len: usize, opts: &GenOpts) -> Vec<Request> {
+    gen_history_mem(rng, len, opts, Mem::default()).0
+}
+
+/// Same, continuing from (and returning) the generator memory, so that a second history can aim at the
+/// objects of a first one.
+pub fn gen_history_mem(rng: &mut Prng, len: usize, opts: &GenOpts, mem: Mem) -> (Vec<Request>, Mem) {
+    let mut g = G { rng, o: opts, mem };
+    let mut out = Vec::with_capacity(len);
+    for _ in 0..len {
+        let v = g.pick_verb();
+        out.push(g.make(v));
+    }
+    (out, g.mem)
+}
+
+/// One request of a given verb (for targeted mutations).
+pub fn gen_one(rng: &mut Prng, verb: Verb, opts: &GenOpts, mem: &mut Mem) -> Request {
+    let mut g = G { rng, o: opts, mem: std::mem::take(mem) };
+    let r = g.make(verb);
+    *mem = g.mem;
+    r
+}
+
+/// A *near* mutation: one or two requests that change one aspect of something emitted earlier — a listener's
+/// activation or one field, a frontend's tags, a backend id at a second address, a certificate set.
+pub fn gen_near_mutation(rng: &mut Prng, opts: &GenOpts, mem: &mut Mem) -> Vec<Request> {
+    let mut g = G { rng, o: opts, mem: std::mem::take(mem) };
+    let mut out: Vec<Request> = Vec::new();
+    for _attempt in 0..8 {
+        match g.rng.below(10) {
+            0 if !g.mem.listeners.is_empty() => {
+                let (k, a) = *g.rng.pick(&g.mem.listeners);
+                out.push(if g.rng.chance(1, 2) { RequestType::ActivateListener(ActivateListener { address: a, proxy: k, from_scm: false }).into() } else { RequestType::DeactivateListener(DeactivateListener { address: a, proxy: k, to_scm: false }).into() });
+            }
+            1 if !g.mem.listeners.is_empty() => {
+                let (k, a) = *g.rng.pick(&g.mem.listeners);
+                let t = g.timeout();
+                out.push(match k {
+                    0 => RequestType::UpdateHttpListener(UpdateHttpListenerConfig { address: a, front_timeout: Some(t), ..Default::default() }).into(),
+                    1 => RequestType::UpdateHttpsListener(UpdateHttpsListenerConfig { address: a, disable_http11: Some(t % 2 == 0), ..Default::default() }).into(),
+                    2 => RequestType::UpdateTcpListener(UpdateTcpListenerConfig { address: a, back_timeout: Some(t), ..Default::default() }).into(),
+                    _ => RequestType::UpdateUdpListener(UpdateUdpListenerConfig { address: a, max_flows: Some(t), ..Default::default() }).into(),
+                });
+            }
+            2 if !g.mem.http_fronts.is_empty() || !g.mem.https_fronts.is_empty() => {
+                let https = g.mem.http_fronts.is_empty() || (!g.mem.https_fronts.is_empty() && g.rng.chance(1, 2));
+                let f = if https { g.rng.pick(&g.mem.https_fronts).clone() } else { g.rng.pick(&g.mem.http_fronts).clone() };
+                let mut f2 = f.clone();
+                match g.rng.below(3) { 0 => { f2.tags.insert("near".into(), "1".into()); } 1 => f2.required_auth = Some(f.required_auth != Some(true)), _ => f2.cluster_id = Some(g.cluster()) }
+                if https { out.push(RequestType::RemoveHttpsFrontend(f).into()); g.mem.https_fronts.push(f2.clone()); out.push(RequestType::AddHttpsFrontend(f2).into()); }
+                else { out.push(RequestType::RemoveHttpFrontend(f).into()); g.mem.http_fronts.push(f2.clone()); out.push(RequestType::AddHttpFrontend(f2).into()); }
+            }
+            3 if !g.mem.tcp_fronts.is_empty() => {
+                let f = g.rng.pick(&g.mem.tcp_fronts).clone();
+                let mut f2 = f.clone(); f2.tags.insert("near".into(), g.rng.pick(&["1", "2"]).to_string());
+                if g.rng.chance(1, 2) { out.push(RequestType::RemoveTcpFrontend(f).into()); }
+                g.mem.tcp_fronts.push(f2.clone()); out.push(RequestType::AddTcpFrontend(f2).into());
+            }
+            4 if !g.mem.udp_fronts.is_empty() => {
+                let f = g.rng.pick(&g.mem.udp_fronts).clone();
+                let mut f2 = f.clone(); f2.tags.insert("near".into(), g.rng.pick(&["1", "2"]).to_string());
+                if g.rng.chance(1, 2) { out.push(RequestType::RemoveUdpFrontend(f).into()); }
+                g.mem.udp_fronts.push(f2.clone()); out.push(RequestType::AddUdpFrontend(f2).into());
+            }
+            5 | 6 if !g.mem.backends.is_empty() => {
+                let b = g.rng.pick(&g.mem.backends).clone();
+                match g.rng.below(4) {
+                    0 => { let mut b2 = b.clone(); b2.address = g.backend_addr(); g.mem.backends.push(b2.clone()); out.push(RequestType::AddBackend(b2).into()); }
+                    1 => { let mut b2 = b.clone(); b2.load_balancing_parameters = Some(LoadBalancingParams { weight: 1 + g.rng.below(9) as i32 }); out.push(RequestType::AddBackend(b2).into()); }
+                    2 => { let mut b2 = b.clone(); b2.backup = Some(b.backup != Some(true)); out.push(RequestType::AddBackend(b2).into()); }
+                    _ => out.push(RequestType::RemoveBackend(RemoveBackend { cluster_id: b.cluster_id, backend_id: b.backend_id, address: b.address }).into()),
+                }
+            }
+            7 | 8 if !g.mem.certs.is_empty() => {
+                let (a, i) = *g.rng.pick(&g.mem.certs);
+                match g.rng.below(4) {
+                    0 => { let j = g.rng.below(g.o.n_certs as u64) as usize; let c = g.gen_cak(j, 0); g.mem.certs.push((a, j)); out.push(RequestType::AddCertificate(AddCertificate { address: a, certificate: c, expired_at: None }).into()); }
+                    1 => out.push(RequestType::RemoveCertificate(RemoveCertificate { address: a, fingerprint: corpus_fingerprint(i) }).into()),
+                    2 => {
+                        // the same certificate again with other names / versions
+                        let mut c = g.gen_cak(i, 0);
+                        c.names = vec![g.rng.pick(&["near.test", "other.test"]).to_string()];
+                        out.push(RequestType::RemoveCertificate(RemoveCertificate { address: a, fingerprint: corpus_fingerprint(i) }).into());
+                        out.push(RequestType::AddCertificate(AddCertificate { address: a, certificate: c, expired_at: None }).into());
+                    }
+                    _ => { let j = g.rng.below(g.o.n_certs as u64) as usize; let c = g.gen_cak(j, 0); g.mem.certs.push((a, j)); out.push(RequestType::ReplaceCertificate(ReplaceCertificate { address: a, new_certificate: c, old_fingerprint: corpus_fingerprint(i), new_expired_at: None }).into()); }
+                }
+            }
+            9 => {
+                let mut c = g.gen_cluster();
+                c.cluster_id = g.rng.pick(&g.o.clusters).clone();
+                out.push(if g.rng.chance(1, 4) { RequestType::RemoveHealthCheck(c.cluster_id).into() } else if g.rng.chance(1, 3) { let h = g.health(false); RequestType::SetHealthCheck(SetHealthCheck { cluster_id: c.cluster_id, config: h }).into() } else { RequestType::AddCluster(c).into() });
+            }
+            _ => {}
+        }
+        if !out.is_empty() { break; }
+    }
+    if out.is_empty() { let v = g.pick_verb(); out.push(g.make(v)); }
+    *mem = g.mem;
+    out
+}
+
+// ------------------------------------------------------------------------------ state comparison
+
+#[derive(Clone, Debug, PartialEq, Eq, PartialOrd, Ord)]
+pub enum DeltaKind { Added, Removed, Changed, BucketAdded, BucketRemoved }
+
+/// One difference between two configurations: `map` names the ConfigState field, `bucket` the outer key
+/// for two-level maps, `item` the object, `fields` (for `Changed`) the differing top-level fields.
+#[derive(Clone, Debug)]
+pub struct Delta {
+    pub map: &'static str,
+    pub bucket: String,
+    pub item: String,
+    pub kind: DeltaKind,
+    pub fields: Vec<String>,
+}
+impl Delta {
+    fn kind_name(&self) -> &'static str {
+        match self.kind { DeltaKind::Added => "added", DeltaKind::Removed => "removed", DeltaKind::Changed => "changed", DeltaKind::BucketAdded => "empty_bucket_added", DeltaKind::BucketRemoved => "empty_bucket_removed" }
+    }
+    /// coarse signature: map and kind of difference
+    pub fn sig(&self) -> String { format!("{}:{}", self.map, self.kind_name()) }
+    /// fine signature: with the names of the differing fields
+    pub fn sig_fields(&self) -> String {
+        if self.fields.is_empty() { self.sig() } else { format!("{}:{}[{}]", self.map, self.kind_name(), self.fields.join(",")) }
+    }
+    pub fn describe(&self) -> String { format!("{} bucket={:?} item={:?}", self.sig_fields(), self.bucket, self.item) }
+}
+
+/// Signature of a set of deltas (sorted, deduplicated) — used as violation key material.
+pub fn delta_sig(d: &[Delta]) -> String {
+    let s: BTreeSet<String> = d.iter().map(|x| x.sig()).collect();
+    s.into_iter().collect::<Vec<_>>().join(";")
+}
+pub fn delta_sig_fields(d: &[Delta]) -> String {
+    let s: BTreeSet<String> = d.iter().map(|x| x.sig_fields()).collect();
+    s.into_iter().collect::<Vec<_>>().join(";")
+}
+
+fn changed_fields<T: serde::Serialize>(a: &T, b: &T) -> Vec<String> {
+    let (va, vb) = (serde_json::to_value(a).unwrap_or_default(), serde_json::to_value(b).unwrap_or_default());
+    let mut out = Vec::new();
+    if let (Some(ma), Some(mb)) = (va.as_object(), vb.as_object()) {
+        let keys: BTreeSet<&String> = ma.keys().chain(mb.keys()).collect();
+        for k in keys { if ma.get(k) != mb.get(k) { out.push(k.clone()); } }
+    }
+    out
+}
+
+fn diff_flat<K: Ord + std::fmt::Display, V: PartialEq + serde::Serialize>(map: &'static str, bucket: &str, a: &BTreeMap<&K, &V>, b: &BTreeMap<&K, &V>, out: &mut Vec<Delta>) {
+    for (k, va) in a {
+        match b.get(k) {
+            None => out.push(Delta { map, bucket: bucket.into(), item: k.to_string(), kind: DeltaKind::Removed, fields: vec![] }),
+            Some(vb) => if va != vb { out.push(Delta { map, bucket: bucket.into(), item: k.to_string(), kind: DeltaKind::Changed, fields: changed_fields(*va, *vb) }); }
+        }
+    }
+    for k in b.keys() { if !a.contains_key(k) { out.push(Delta { map, bucket: bucket.into(), item: k.to_string(), kind: DeltaKind::Added, fields: vec![] }); } }
+}
+
+/// multiset difference of two bucket vectors (order inside a bucket is not configuration). Items are
+/// compared by their `Debug` rendering so that the comparison does not lean on sozu's own `Ord` impls.
+fn diff_bucket_vec<T: PartialEq + std::fmt::Debug>(map: &'static str, bucket: &str, a: &[T], b: &[T], name: impl Fn(&T) -> String, out: &mut Vec<Delta>) {
+    if a == b { return; }
+    let mut sa: Vec<(String, &T)> = a.iter().map(|x| (format!("{x:?}"), x)).collect(); sa.sort_by(|x, y| x.0.cmp(&y.0));
+    let mut sb: Vec<(String, &T)> = b.iter().map(|x| (format!("{x:?}"), x)).collect(); sb.sort_by(|x, y| x.0.cmp(&y.0));
+    let (mut i, mut j) = (0, 0);
+    while i < sa.len() || j < sb.len() {
+        if j >= sb.len() || (i < sa.len() && sa[i].0 < sb[j].0) { out.push(Delta { map, bucket: bucket.into(), item: name(sa[i].1), kind: DeltaKind::Removed, fields: vec![] }); i += 1; }
+        else if i >= sa.len() || sb[j].0 < sa[i].0 { out.push(Delta { map, bucket: bucket.into(), item: name(sb[j].1), kind: DeltaKind::Added, fields: vec![] }); j += 1; }
+        else { i += 1; j += 1; }
+    }
+}
+
+fn diff_buckets<T: PartialEq + std::fmt::Debug>(map: &'static str, a: &BTreeMap<String, &Vec<T>>, b: &BTreeMap<String, &Vec<T>>, strict: bool, name: impl Fn(&T) -> String + Copy, out: &mut Vec<Delta>) {
+    let empty: Vec<T> = Vec::new();
+    let keys: BTreeSet<&String> = a.keys().chain(b.keys()).collect();
+    for k in keys {
+        let (ba, bb) = (a.get(k), b.get(k));
+        if strict {
+            if ba.is_none() && bb.is_some_and(|v| v.is_empty()) { out.push(Delta { map, bucket: k.clone(), item: String::new(), kind: DeltaKind::BucketAdded, fields: vec![] }); }
+            if bb.is_none() && ba.is_some_and(|v| v.is_empty()) { out.push(Delta { map, bucket: k.clone(), item: String::new(), kind: DeltaKind::BucketRemoved, fields: vec![] }); }
+        }
+        diff_bucket_vec(map, k, ba.map(|v| v.as_slice()).unwrap_or(&empty), bb.map(|v| v.as_slice()).unwrap_or(&empty), name, out);
+    }
+}
+
+/// Structural difference of two configurations over every map except `request_counts` (a census, not
+/// configuration). `strict`: an empty bucket differs from an absent one; otherwise empty buckets are
+/// normalised away. Order inside `Vec` buckets is ignored (multiset comparison).
+pub fn state_delta(a: &ConfigState, b: &ConfigState, strict: bool) -> Vec<Delta> {
+    let mut out = Vec::new();
+    macro_rules! flat { ($name:literal, $f:ident) => {{
+        let ma: BTreeMap<_, _> = a.$f.iter().collect(); let mb: BTreeMap<_, _> = b.$f.iter().collect();
+        diff_flat($name, "", &ma, &mb, &mut out);
+    }}; }
+    flat!("clusters", clusters);
+    flat!("http_listeners", http_listeners);
+    flat!("https_listeners", https_listeners);
+    flat!("tcp_listeners", tcp_listeners);
+    flat!("udp_listeners", udp_listeners);
+    flat!("http_fronts", http_fronts);
+    flat!("https_fronts", https_fronts);
+    {
+        let ma: BTreeMap<String, &Vec<Backend>> = a.backends.iter().map(|(k, v)| (k.clone(), v)).collect();
+        let mb: BTreeMap<String, &Vec<Backend>> = b.backends.iter().map(|(k, v)| (k.clone(), v)).collect();
+        diff_buckets("backends", &ma, &mb, strict, |x: &Backend| format!("{}@{}", x.backend_id, x.address), &mut out);
+    }
+    {
+        let ma: BTreeMap<String, &Vec<TcpFrontend>> = a.tcp_fronts.iter().map(|(k, v)| (k.clone(), v)).collect();
+        let mb: BTreeMap<String, &Vec<TcpFrontend>> = b.tcp_fronts.iter().map(|(k, v)| (k.clone(), v)).collect();
+        diff_buckets("tcp_fronts", &ma, &mb, strict, |x: &TcpFrontend| format!("{} {:?}", x.address, x.tags), &mut out);
+    }
+    {
+        let ma: BTreeMap<String, &Vec<UdpFrontend>> = a.udp_fronts.iter().map(|(k, v)| (k.clone(), v)).collect();
+        let mb: BTreeMap<String, &Vec<UdpFrontend>> = b.udp_fronts.iter().map(|(k, v)| (k.clone(), v)).collect();
+        diff_buckets("udp_fronts", &ma, &mb, strict, |x: &UdpFrontend| format!("{} {:?}", x.address, x.tags), &mut out);
+    }
+    {
+        let ma: BTreeMap<SocketAddr, _> = a.certificates.iter().map(|(k, v)| (*k, v)).collect();
+        let mb: BTreeMap<SocketAddr, _> = b.certificates.iter().map(|(k, v)| (*k, v)).collect();
+        let keys: BTreeSet<&SocketAddr> = ma.keys().chain(mb.keys()).collect();
+        let none: std::collections::HashMap<Fingerprint, CertificateAndKey> = Default::default();
+        for k in keys {
+            let (ba, bb) = (ma.get(k), mb.get(k));
+            if strict {
+                if ba.is_none() && bb.is_some_and(|v| v.is_empty()) { out.push(Delta { map: "certificates", bucket: k.to_string(), item: String::new(), kind: DeltaKind::BucketAdded, fields: vec![] }); }
+                if bb.is_none() && ba.is_some_and(|v| v.is_empty()) { out.push(Delta { map: "certificates", bucket: k.to_string(), item: String::new(), kind: DeltaKind::BucketRemoved, fields: vec![] }); }
+            }
+            let fa: BTreeMap<&Fingerprint, &CertificateAndKey> = ba.copied().unwrap_or(&none).iter().collect();
+            let fb: BTreeMap<&Fingerprint, &CertificateAndKey> = bb.copied().unwrap_or(&none).iter().collect();
+            diff_flat("certificates", &k.to_string(), &fa, &fb, &mut out);
+        }
+    }
+    out
+}
+
+/// Plan-side features of a pair of configurations that are known to matter for difference computation
+/// (read from the public maps; no sozu logic involved).
+pub fn pair_features(a: &ConfigState, b: &ConfigState) -> BTreeSet<&'static str> {
+    let mut f = BTreeSet::new();
+    for s in [a, b] {
+        for v in s.backends.values() {
+            let ids: BTreeSet<&String> = v.iter().map(|x| &x.backend_id).collect();
+            if ids.len() < v.len() { f.insert("dup_backend_id"); }
+        }
+        for v in s.tcp_fronts.values() {
+            let ids: BTreeSet<SocketAddr> = v.iter().map(|x| x.address).collect();
+            if ids.len() < v.len() { f.insert("tcp_fronts_sharing_address"); }
+        }
+        for v in s.udp_fronts.values() {
+            let ids: BTreeSet<SocketAddr> = v.iter().map(|x| x.address).collect();
+            if ids.len() < v.len() { f.insert("udp_fronts_sharing_address"); }
+        }
+    }
+    for s in [a, b] {
+        if s.certificates.values().any(|m| m.values().any(|c| c.names.is_empty())) { f.insert("certificate_without_names"); }
+    }
+    let ca: BTreeMap<SocketAddr, _> = a.certificates.iter().map(|(k, v)| (*k, v)).collect();
+    for (addr, certs) in ca {
+        if let Some(other) = b.certificates.get(&addr) {
+            let m: BTreeMap<&Fingerprint, &CertificateAndKey> = certs.iter().collect();
+            for (fp, c) in m { if other.get(fp).is_some_and(|o| o != c) { f.insert("same_fingerprint_other_attributes"); } }
+        }
+    }
+    f
+}
+
+/// Apply a history to an empty configuration; returns the state and the per-request acceptance.
+pub fn apply_history(ops: &[Request]) -> (ConfigState, Vec<bool>) {
+    let mut s = ConfigState::new();
+    let acc = ops.iter().map(|r| s.dispatch(r).is_ok()).collect();
+    (s, acc)
+}
+
+pub fn count_objects(s: &ConfigState) -> usize {
+    s.clusters.len() + s.http_listeners.len() + s.https_listeners.len() + s.tcp_listeners.len() + s.udp_listeners.len() + s.http_fronts.len() + s.https_fronts.len()
+        + s.backends.values().map(|v| v.len()).sum::<usize>() + s.tcp_fronts.values().map(|v| v.len()).sum::<usize>() + s.udp_fronts.values().map(|v| v.len()).sum::<usize>()
+        + s.certificates.values().map(|v| v.len()).sum::<usize>()
+}
+
+/// Deterministic content hash of a configuration (for trace hashes): independent of map iteration order.
+pub fn state_hash(s: &ConfigState, h: &mut crate::prng::TraceHash) {
+    use std::hash::{Hash, Hasher};
+    let mut d = std::collections::hash_map::DefaultHasher::new();
+    s.clusters.hash(&mut d); s.backends.hash(&mut d); s.http_listeners.hash(&mut d); s.https_listeners.hash(&mut d); s.tcp_listeners.hash(&mut d); s.udp_listeners.hash(&mut d);
+    s.http_fronts.hash(&mut d); s.https_fronts.hash(&mut d);
+    let t: BTreeMap<&String, &Vec<TcpFrontend>> = s.tcp_fronts.iter().collect(); t.hash(&mut d);
+    let u: BTreeMap<&String, &Vec<UdpFrontend>> = s.udp_fronts.iter().collect(); u.hash(&mut d);
+    let c: BTreeMap<&SocketAddr, BTreeMap<&Fingerprint, &CertificateAndKey>> = s.certificates.iter().map(|(k, v)| (k, v.iter().collect())).collect();
+    c.hash(&mut d);
+    h.mix(d.finish());
+}
+
+// ------------------------------------------------------------------------------- plan utilities
+
+/// Short human-readable form of a history.
+pub fn summarize_ops(ops: &[Request]) -> String {
+    let mut s = String::new();
+    for (i, r) in ops.iter().enumerate() {
+        if i > 0 { s.push(' '); }
+        s.push_str(verb_name(r));
+        if i >= 40 { s.push_str(" …"); break; }
+    }
+    s
+}
+
+pub fn ops_to_value(ops: &[Request]) -> serde_json::Value { serde_json::to_value(ops).unwrap() }
+pub fn ops_from_value(v: &serde_json::Value) -> Result<Vec<Request>, String> {
+    let mut ops: Vec<Request> = serde_json::from_value(v.clone()).map_err(|e| e.to_string())?;
+    for r in ops.iter_mut() { materialize(r); }
+    Ok(ops)
+}
+
+/// Generic shrink candidates for a JSON array of requests: drop halves, drop single requests, then null /
+/// empty optional members of one request.
+pub fn shrink_ops(ops: &serde_json::Value) -> Vec<serde_json::Value> {
+    let Some(a) = ops.as_array() else { return vec![] };
+    let mut out = Vec::new();
+    let n = a.len();
+    if n >= 4 {
+        out.push(serde_json::Value::Array(a[n / 2..].to_vec()));
+        out.push(serde_json::Value::Array(a[..n / 2].to_vec()));
+    }
+    for i in 0..n { let mut b = a.clone(); b.remove(i); out.push(serde_json::Value::Array(b)); }
+    // simplify one argument: set one optional (non-null) member to null, or empty one array / map
+    for i in 0..n {
+        let mut paths: Vec<Vec<String>> = Vec::new();
+        collect_paths(&a[i], &mut Vec::new(), 0, &mut paths);
+        for p in paths.into_iter().take(80) {
+            let mut b = a.clone();
+            if let Some(slot) = get_path_mut(&mut b[i], &p) {
+                let simpler = match slot { serde_json::Value::Array(x) if !x.is_empty() => serde_json::Value::Array(vec![]), serde_json::Value::Object(x) if !x.is_empty() && p.len() > 2 => { let _ = x; serde_json::Value::Null }, serde_json::Value::Null => continue, serde_json::Value::Array(_) => continue, _ => serde_json::Value::Null };
+                *slot = simpler;
+                out.push(serde_json::Value::Array(b));
+            }
+        }
+    }
+    out
+}
+fn collect_paths(v: &serde_json::Value, cur: &mut Vec<String>, depth: usize, out: &mut Vec<Vec<String>>) {
+    if depth > 5 { return; }
+    if let Some(m) = v.as_object() {
+        for (k, x) in m {
+            cur.push(k.clone());
+            // depth 0 = "request_type", depth 1 = the verb; members start at depth 2
+            if depth >= 2 && !x.is_null() { out.push(cur.clone()); }
+            collect_paths(x, cur, depth + 1, out);
+            cur.pop();
+        }
+    }
+}
+fn get_path_mut<'a>(v: &'a mut serde_json::Value, p: &[String]) -> Option<&'a mut serde_json::Value> {
+    let mut cur = v;
+    for k in p { cur = cur.as_object_mut()?.get_mut(k)?; }
+    Some(cur)
+}
+
+pub fn front_key_parts(f: &HttpFrontend) -> (SocketAddr, &str, &PathRule, &Option<String>) { (f.address, &f.hostname, &f.path, &f.method) }
